@@ -113,7 +113,7 @@ impl Number {
     /// integer and in range for `i64`, otherwise return `Err(self)`.
     pub fn into_integer(self) -> Result<i64, Self> {
         let int = self.value.round() as i64;
-        if ((int as f64) - self.value).abs() <= f32::EPSILON.into() {
+        if ((int as f64) - self.value).abs() < 1e-11 {
             Ok(int)
         } else {
             Err(self)
